@@ -20,7 +20,7 @@ MANIFEST = {
             'the no-wrap condition of the masked opening (nowrap_from_ranges derives it from the code\'s ranges unless r_divl = 0 '
             'and l = L); trailing_zeros_correct (right up to and including the lowest 1); unit_vector_correct (e_a for all n, '
             '0 <= a < n) and unit_vector_wrap (a = n gives e_0); find_correct (f(first index) / f(e) / raw (nf, f(ix)) for the '
-            'default, f and cs_f forms, public or secret a, bits or not); gcp2_correct / gcp2_zero. The models are tied to '
+            'default, f-only, cs_f-only and both-given forms, public or secret a, bits or not, empty lists); gcp2_correct / gcp2_zero. The models are tied to '
             '/repo/mpyc/runtime.py on every run by exact comparison with the real functions on shared random tapes, and the '
             'real functions are compared with an independent plain-Python oracle on the same inputs.',
     'note': 'Value level (single party; operator overloading makes the routines party independent); arithmetic in Z with field '
@@ -31,11 +31,13 @@ MANIFEST = {
             'mpc.random_bits / mpc._random are tape oracles patched from outside for the draws made directly by to_bits and '
             'trailing_zeros (/repo untouched); conversions (GF(p) branch) keep the real generator and are trusted to be value '
             'preserving (checked by the oracle). In find, f / cs_f values are lists (int and tuple results are wrapped as the code '
-            'does); find_correct assumes cs_f(1,i) = cs_f(0,i+1) for i >= 0 and equal lengths of all f(i). unit_vector is '
+            'does); find_correct assumes the docstring rule cs_f(b,i) = F(i+b) for i >= 0, b in {0,1} (F the effective f) and equal lengths of all F(i). unit_vector is '
             'modelled on the bits of a (to_bits composed separately); a > n is unspecified and only compared with the model. '
-            'Defects (known_findings/C30.json): F-C30-1 find(f=, cs_f=) raises UnboundLocalError (C30_find_both_refuted); '
-            'F-C30-2 find([], 1) raises IndexError (so gcp2(.., l=0) raises); F-C30-3 to_bits(nonintegral secfxp, l > bit_length) '
-            'is wrong although the assert admits l <= bit_length + frac_length (C30_to_bits_l_gt_bit_length_refuted). '
+            'Defects (known_findings/C30.json): F-C30-1 (find with both f and cs_f raised UnboundLocalError) repaired in /repo by '
+            'f1f6f50 and F-C30-2 (find([], 1) raised IndexError, so did gcp2(.., l=0)) repaired by 7bf810d: both forms are now '
+            'ordinary cases of the oracle and of the model (C30_find_both_correct, C30_find_empty); still open: F-C30-3 '
+            'to_bits(nonintegral secfxp, l > bit_length) is wrong although the assert admits l <= bit_length + frac_length '
+            '(C30_to_bits_l_gt_bit_length_refuted). '
             'np_add_bits / np_to_bits / np_find / np_unit_vector are not covered.',
     'technique': 'Coq proof by induction over the recursion structure + vm_compute correspondence on shared tapes + exhaustive small-domain oracle',
 }
@@ -458,12 +460,7 @@ def _run(ctx, mpc, tape, rng, ok):
         ta, tb = v2(A, l) if l else None, v2(B, l) if l else None
         cands = [t for t in (ta, tb) if t is not None]
         want = 1 << (min(cands) if cands else l)     # no common 1 below l: 2^l (documented TODO)
-        if l == 0:
-            if got != 'Index':
-                violation('gcp2-l0 unexpected', dict(key, got=got))
-            ctx.case(key, nontrivial=False, kind='gcp2 l=0 (find([],1) IndexError)')
-            want = None
-        elif got != want:
+        if got != want:
             violation('gcp2-wrong l=%d' % l, dict(key, got=got, want=want))
         else:
             ctx.case(key, nontrivial=True, kind='gcp2')
@@ -473,14 +470,15 @@ def _run(ctx, mpc, tape, rng, ok):
             model('gcp2 %s %s %s %s %s %s %s %s %s' % (zlit(p), natlit(L), zlit(A), zlit(B), natlit(l),
                                                     zlist(tape.bits_log[0]), zlit(tape.rand_log[0]),
                                                     zlist(tape.bits_log[1]), zlit(tape.rand_log[1])),
-                  None if l == 0 else ('Some', got), key, 'gcp2')
+                  ('Some', got), key, 'gcp2')
 
     bs8 = [0, 1, 2, 4, 8, 64, -128, 96, 127, -1, 6, 80]
     for A in range(-128, 128):
         for B in rng.sample(bs8, ctx.n(2, 12)):
             do_gcp2(secint8, A, B, None)
         do_gcp2(secint8, A, rng.choice(bs8), rng.randrange(1, 8))
-    do_gcp2(secint8, 4, 8, 0)
+    do_gcp2(secint8, 4, 8, 0)      # find([], 1) inside
+    do_gcp2(secint8, 0, 0, 0)
     for _ in range(ctx.n(150, 800)):
         sa, sb = rng.randrange(32), rng.randrange(32)
         A = min(max(rng.randrange(-2**15, 2**15) << sa, -2**31), 2**31 - 1)
@@ -549,6 +547,10 @@ def _run(ctx, mpc, tape, rng, ok):
                         lambda i: [nlen - i], True),
             'both': (lambda i: [2 * i], lambda b, i: [2 * (i + b)], '(Some (fun i => [2 * i]))', '(Some (fun b i => [2 * (i + b)]))',
                      lambda i: [2 * i], True),
+            'both_int': (lambda i: 3 * i + 1, lambda b, i: 3 * (i + b) + 1, '(Some (fun i => [3 * i + 1]))',
+                         '(Some (fun b i => [3 * (i + b) + 1]))', lambda i: [3 * i + 1], True),
+            'both_tuple': (lambda i: (i, 5 - i), lambda b, i: (i + b, 5 - i - b), '(Some (fun i => [i; 5 - i]))',
+                           '(Some (fun b i => [i + b; 5 - i - b]))', lambda i: [i, 5 - i], True),
         }
 
     def e_forms(nlen):
@@ -588,18 +590,8 @@ def _run(ctx, mpc, tape, rng, ok):
         except Exception as e:  # noqa
             got = exc_name(e)
         ix = first_index(xs, a)
-        if fname == 'both':
-            if got != 'Unbound':
-                # the call works: then it must satisfy the specification below
-                pass
-            else:
-                violation('find-f-and-cs_f UnboundLocalError', dict(key, got=got))
-        elif nlen == 0 and bits and not asec and a == 1:
-            if got == 'Index':
-                violation('find-empty-a=1 IndexError', dict(key, got=got))
         if isinstance(got, str):
-            if not (fname == 'both' or (nlen == 0 and bits and not asec and a == 1)):
-                violation('find-raises %s' % got, dict(key, got=got))
+            violation('find-raises %s form=%s' % (got, fname), dict(key, got=got))
             want_model = None
         else:
             res = got[1]
